@@ -15,7 +15,7 @@ For two flows ALL interleavings of the two scripts are enumerated (up to 70), fo
 sampled; variants add at interleaving points: switching away and straight back, switch_to_default_flow and back, \
 save -> fresh story -> load_state (once, or before every step), remove_flow of a flow that has finished its script, and a variant in which the first script plays in the default flow while finished named flows are removed as the current flow (the story falls back to the default flow without a switch call). Oracle: each flow's \
 observations (lines, tags, choices, end) equal those of the same script run alone in a single-flow story, and \
-its globals end with the solo values; on coming back to a flow the host sees the text, tags and choices it saw when it left; a removed flow is absent from the next save. Cases whose solo run reports an error are discarded (an unhandled error \
+its globals end with the solo values; on coming back to a flow the host sees the text, tags and choices it saw when it left; a removed flow is absent from the next save; (rewind variant) a checkpoint saved at a generated step and loaded at the end into the very story that went on playing gives the same save and the same view of every flow as a fresh story that loads it. Cases whose solo run reports an error are discarded (an unhandled error \
 halts the whole story by design). Non-trivial = interleaving with >= 2 switches in which a flow is parked at a \
 choice point or mid-paragraph; distinct = hash(program, scripts, interleaving, variant).";
 
@@ -105,7 +105,8 @@ struct Solo {
 /// variant: 0 plain, 1 bounce (switch away and back before every op), 2 default-flow bounce,
 /// 3 save -> fresh story -> load at step `at`, 4 remove finished flows as soon as possible,
 /// 5 save -> fresh story -> load before EVERY step, 6 flow 0 plays in the default flow and finished
-/// named flows are removed while current
+/// named flows are removed while current, 7 checkpoint at step `at`, play on, then load the
+/// checkpoint into the same story (rewind) and compare with a fresh story that loads it
 pub fn exec(case: &J, acc: &mut Acc) -> Result<(), Fail> {
     inflight(case);
     let (json_text, meta) = case_story(case)?;
@@ -198,7 +199,11 @@ pub fn exec(case: &J, acc: &mut Acc) -> Result<(), Fail> {
         };
         let mut back_diff: Option<String> = None;
         let mut removed_still_saved: Option<String> = None;
+        let mut checkpoint: Option<String> = None;
         for (step, &f) in order.iter().enumerate() {
+            if variant == 7 && step == at {
+                checkpoint = h.story.save_state().ok();
+            }
             if (variant == 3 && step == at) || variant == 5 {
                 // save -> fresh story -> load
                 let s = h.story.save_state().map_err(|e| e.to_string())?;
@@ -277,9 +282,38 @@ pub fn exec(case: &J, acc: &mut Acc) -> Result<(), Fail> {
                 }
             }
         }
-        Ok::<_, String>((got, h.view().globals, h.fuel_exhausted(), switches, back_diff, removed_still_saved))
+        let end_globals = h.view().globals;
+        // variant 7: rewind. Loading the checkpoint into the story that went on playing (and
+        // opened further flows meanwhile) must give exactly what a fresh story gives that loads
+        // the same checkpoint: the same save, and every flow name shows the same thing.
+        let mut rewind_diff: Option<String> = None;
+        if let Some(cp) = &checkpoint {
+            let mut fresh = Host::new(&json_text, meta.clone(), &cfg).map_err(|e| e.to_string())?;
+            fresh.story.load_state(cp).map_err(|e| format!("load_state: {e}"))?;
+            h.story.load_state(cp).map_err(|e| format!("load_state: {e}"))?;
+            let (a, b) = (h.canonical_save(), fresh.canonical_save());
+            match (a, b) {
+                (Ok(a), Ok(b)) if a != b => {
+                    rewind_diff = Some(format!("the save after the rewind differs from the save of a fresh story that loaded the checkpoint: {}", crate::c02::json_diff(&b, &a)));
+                }
+                _ => {}
+            }
+            if rewind_diff.is_none() {
+                for name in FLOWS.iter().take(nflows) {
+                    h.apply(&HostOp::SwitchFlow(name.to_string()));
+                    fresh.apply(&HostOp::SwitchFlow(name.to_string()));
+                    let (x, y) = (poll(&mut h), poll(&mut fresh));
+                    let (cx, cy) = (h.story.can_continue(), fresh.story.can_continue());
+                    if x != y || cx != cy {
+                        rewind_diff = Some(format!("after the rewind flow {name} shows {x:?} (can continue: {cx}); in a fresh story that loaded the checkpoint it shows {y:?} (can continue: {cy})"));
+                        break;
+                    }
+                }
+            }
+        }
+        Ok::<_, String>((got, end_globals, h.fuel_exhausted(), switches, back_diff, removed_still_saved, rewind_diff))
     });
-    let (got, globals, fuel, switches, back_diff, removed_still_saved) = match r {
+    let (got, globals, fuel, switches, back_diff, removed_still_saved, rewind_diff) = match r {
         Err(p) => return Err(panic_fail(&p, "interleaved run", case)),
         Ok(Err(e)) => {
             if e.starts_with("load_state") {
@@ -299,6 +333,9 @@ pub fn exec(case: &J, acc: &mut Acc) -> Result<(), Fail> {
     acc.class(&format!("variant:{variant}"));
     if let Some(d) = back_diff {
         return Err(Fail::violation("switch-back-view-differs", format!("variant {variant}: {d}"), case.clone()));
+    }
+    if let Some(d) = rewind_diff {
+        return Err(Fail::violation("rewind-differs-from-fresh-load", format!("variant {variant}, checkpoint at step {at}: {d}"), case.clone()));
     }
     if let Some(name) = removed_still_saved {
         return Err(Fail::violation("removed-flow-still-saved", format!("variant {variant}: flow {name} was removed but the next save still carries it"), case.clone()));
@@ -412,7 +449,7 @@ pub fn run(env: &Env) -> i32 {
                 let base = json!({"source": src, "entries": entries,
                     "scripts": scripts.iter().map(|s| ops_to_json(s)).collect::<Vec<_>>()});
                 for (oi, order) in orders.iter().enumerate() {
-                    for variant in 0..7u64 {
+                    for variant in 0..8u64 {
                         if variant != 0 && (oi + variant as usize) % 3 != 0 {
                             continue; // variants on a third of the interleavings each
                         }
